@@ -12,6 +12,11 @@
 //!   (6 (text...) (needle...))                                  AnnotationStore::find_text
 //! mode 0 = the resource, 1 = unbound text selection, 2 = known (bound) text selection,
 //! 3 = the same through ResultItem<TextSelection>.
+//! Kinds 0, 1, 2, 3 and 5 take an optional trailing `setup` = (milestone_interval ((b e)...) useprev prevtext):
+//! the resource is built under that milestone interval (0 = no milestones), first holds `prevtext` and
+//! then gets the text through TextResource::with_string() when useprev != 0, and carries annotations on
+//! the listed ranges before anything is searched.  None of it may change any answer (the model does not
+//! see it).
 //! The model input additionally carries what the external engines say: the char::to_lowercase
 //! table (kinds 0 and 5) and the regex crate's matches on a plain copy of the slice (kind 3).
 use crate::out::{guard, Out};
@@ -50,16 +55,46 @@ fn sels_of(x: &Sx) -> Vec<(i64, usize, usize)> {
     x.list().iter().map(|s| (s.nth(0).int(), s.nth(1).int() as usize, s.nth(2).int() as usize)).collect()
 }
 
+/// how the resource came about (never visible in the answers)
+#[derive(Clone, Default)]
+struct Setup {
+    interval: Option<usize>,
+    anns: Vec<(usize, usize)>,
+    prev: Option<String>,
+}
+
+fn setup_of(x: &Sx) -> Setup {
+    if x.list().is_empty() {
+        return Setup::default();
+    }
+    Setup {
+        interval: Some(x.nth(0).int() as usize),
+        anns: x.nth(1).list().iter().map(|p| (p.nth(0).int() as usize, p.nth(1).int() as usize)).collect(),
+        prev: if x.nth(2).int() != 0 { Some(x.nth(3).string()) } else { None },
+    }
+}
+
 fn build(text: &str, known: &[(usize, usize)], interval: Option<usize>) -> AnnotationStore {
-    let cfg = match interval {
+    build_with(text, known, &Setup { interval, anns: vec![], prev: None })
+}
+
+fn build_with(text: &str, known: &[(usize, usize)], setup: &Setup) -> AnnotationStore {
+    let cfg = match setup.interval {
         Some(i) => Config::default().with_milestone_interval(i),
         None => Config::default(),
     };
-    let mut store = AnnotationStore::new(cfg)
-        .with_id("c07")
-        .with_resource(TextResourceBuilder::new().with_id("r").with_text(text.to_string()))
-        .unwrap();
-    for (b, e) in known {
+    let mut store = AnnotationStore::new(cfg.clone()).with_id("c07");
+    match &setup.prev {
+        Some(prev) => {
+            // the resource held another text first
+            let res = TextResource::from_string("r", prev.as_str(), cfg.clone()).with_string(text.to_string());
+            store.insert(res).unwrap();
+        }
+        None => {
+            store = store.with_resource(TextResourceBuilder::new().with_id("r").with_text(text.to_string())).unwrap();
+        }
+    }
+    for (b, e) in setup.anns.iter().chain(known.iter()) {
         let _ = guard(|| {
             store.annotate(
                 AnnotationBuilder::new()
@@ -120,7 +155,7 @@ impl Ctx {
                 let text = req.nth(1).string();
                 let sels = sels_of(req.nth(2));
                 let needles: Vec<String> = req.nth(3).list().iter().map(|n| n.string()).collect();
-                let store = build(&text, &known_of(&sels), None);
+                let store = build_with(&text, &known_of(&sels), &setup_of(req.nth(4)));
                 let res = store.resource("r").unwrap();
                 let limit = text.chars().count() + 5;
                 let mut outs = Vec::new();
@@ -147,7 +182,7 @@ impl Ctx {
                 let text = req.nth(1).string();
                 let sels = sels_of(req.nth(2));
                 let delims: Vec<String> = req.nth(3).list().iter().map(|n| n.string()).collect();
-                let store = build(&text, &known_of(&sels), None);
+                let store = build_with(&text, &known_of(&sels), &setup_of(req.nth(4)));
                 let res = store.resource("r").unwrap();
                 let limit = text.chars().count() + 5;
                 let mut outs = Vec::new();
@@ -160,13 +195,13 @@ impl Ctx {
                         outs.push(o);
                     }
                 }
-                (req.clone(), outs, nt)
+                (l(vec![a(1), req.nth(1).clone(), req.nth(2).clone(), req.nth(3).clone()]), outs, nt)
             }
             2 => {
                 let text = req.nth(1).string();
                 let sels = sels_of(req.nth(2));
                 let sets: Vec<Vec<char>> = req.nth(3).list().iter().map(|n| n.string().chars().collect()).collect();
-                let store = build(&text, &known_of(&sels), None);
+                let store = build_with(&text, &known_of(&sels), &setup_of(req.nth(4)));
                 let res = store.resource("r").unwrap();
                 let mut outs = Vec::new();
                 let mut nt = false;
@@ -196,7 +231,7 @@ impl Ctx {
                         outs.push(obs(o2));
                     }
                 }
-                (req.clone(), outs, nt)
+                (l(vec![a(2), req.nth(1).clone(), req.nth(2).clone(), req.nth(3).clone()]), outs, nt)
             }
             3 => {
                 let text = req.nth(1).string();
@@ -206,7 +241,7 @@ impl Ctx {
                 let patterns: Vec<String> = req.nth(4).list().iter().map(|n| n.string()).collect();
                 let exprs: Vec<Regex> = patterns.iter().filter_map(|p| Regex::new(p).ok()).collect();
                 let known = if mode >= 2 { vec![(b, e)] } else { vec![] };
-                let store = build(&text, &known, None);
+                let store = build_with(&text, &known, &setup_of(req.nth(5)));
                 let res = store.resource("r").unwrap();
                 let limit = 4 * (text.len() + 2) * (exprs.len() + 1);
                 // more than two expressions: every other case hands over a precompiled RegexSet
@@ -300,7 +335,7 @@ impl Ctx {
                 let seqs: Vec<Vec<String>> = req.nth(3).list().iter().map(|fs| fs.list().iter().map(|f| f.string()).collect()).collect();
                 let skipset: Vec<char> = req.nth(4).string().chars().collect();
                 let nocase = req.nth(5).int() != 0;
-                let store = build(&text, &known_of(&sels), None);
+                let store = build_with(&text, &known_of(&sels), &setup_of(req.nth(6)));
                 let res = store.resource("r").unwrap();
                 let mut outs = Vec::new();
                 let mut nt = false;
@@ -591,6 +626,81 @@ pub fn generate(out: &mut Out, tier: &str, seed: u64) {
             emit(out, l(vec![a(6), l(texts), l(needles)]), "store find_text (random)");
         }
     }
+    // --- index setups: the same operations on resources built under milestone intervals 0 (none),
+    // 1, 2, 3, 5, 100, carrying annotations (mostly in front of the matches) and / or holding another
+    // text first (with_string on a resource that has a text): answers depend on the text only
+    {
+        let setup_sx = |interval: usize, anns: &[(usize, usize)], prev: Option<&[char]>| -> Sx {
+            l(vec![
+                a(interval as i64),
+                l(anns.iter().map(|p| l(vec![a(p.0 as i64), a(p.1 as i64)])).collect()),
+                a(if prev.is_some() { 1 } else { 0 }),
+                txt(prev.unwrap_or(&[])),
+            ])
+        };
+        let all_kinds = |out: &mut Out, rng: &mut Rng, t: &[char], sels: Sx, needles: Vec<Sx>, setup: Sx, key: &str| {
+            let n = t.len();
+            emit(out, l(vec![a(0), txt(t), sels.clone(), l(needles.clone()), setup.clone()]), key);
+            emit(out, l(vec![a(1), txt(t), sels.clone(), l(needles.clone()), setup.clone()]), key);
+            emit(out, l(vec![a(2), txt(t), sels.clone(), l(vec![txt(&[' ', ';']), txt(&['\u{e9}', 'a'])]), setup.clone()]), key);
+            let pats: Vec<Sx> = vec![text_sx(*rng.pick(PATTERNS)), text_sx("[a-z]+")];
+            let which = if n > 0 && rng.chance(1, 2) { l(vec![a(1), a(rng.below(n) as i64), a(n as i64)]) } else { l(vec![a(0), a(0), a(n as i64)]) };
+            emit(out, l(vec![a(3), txt(t), which, a(rng.below(2) as i64), l(pats), setup.clone()]), key);
+            let seqs = l(vec![l(needles.iter().take(2).cloned().collect())]);
+            emit(out, l(vec![a(5), txt(t), sels.clone(), seqs, txt(&[' ', ';', 'a', '\u{e9}', '\u{4e2d}']), a(0), setup]), key);
+        };
+        // fixed: every interval x annotation set x previous text on a few mixed-width texts
+        let ftexts = ["ab;cd;ef", "\u{e9}\u{e9};a\u{e9};b needle", "a\u{1f600};\u{4e2d}b;needle \u{e9}", "needle;needle"];
+        let fanns: Vec<Vec<(usize, usize)>> = vec![vec![], vec![(0, 1)], vec![(0, 0), (1, 2)], vec![(1, 3), (0, 2)], vec![(2, 2)]];
+        let fprev: Vec<Option<Vec<char>>> = vec![
+            None,
+            Some("abcdefghijkl".chars().collect()),
+            Some("\u{e9}\u{e9}\u{1f600}a\u{4e2d}\u{4e2d}bc".chars().collect()),
+            Some("a".chars().collect()),
+        ];
+        for ft in ftexts.iter() {
+            let t: Vec<char> = ft.chars().collect();
+            let needles = vec![txt(&[';']), txt(&"needle".chars().collect::<Vec<char>>()), txt(&['\u{e9}']), txt(&['b'])];
+            for interval in [0usize, 1, 2, 3, 5, 100] {
+                for anns in &fanns {
+                    for prev in &fprev {
+                        if !thorough && anns.is_empty() && prev.is_none() {
+                            continue;
+                        }
+                        let sels = l(rand_sels(&mut rng, t.len(), 2));
+                        let setup = setup_sx(interval, anns, prev.as_deref());
+                        all_kinds(out, &mut rng, &t, sels, needles.clone(), setup, "operations under index setups (fixed)");
+                    }
+                }
+            }
+        }
+        // random
+        let nsetup = if thorough { 12000 } else { 700 };
+        for it in 0..nsetup {
+            let alpha = if it % 4 == 0 { &wide } else { &plain };
+            let t = rand_text(&mut rng, alpha, 12);
+            let n = t.len();
+            let interval = *rng.pick(&[0usize, 0, 1, 2, 3, 5, 100]);
+            let mut anns = Vec::new();
+            for _ in 0..rng.below(4) {
+                // mostly in the first half: in front of what is found
+                let b = rng.below(n / 2 + 1);
+                let e = b + rng.below((n - b).min(3) + 1);
+                anns.push((b, e));
+            }
+            let prev: Option<Vec<char>> = if rng.chance(1, 2) {
+                let pa = if rng.chance(1, 2) { &plain } else { &wide };
+                let len = (interval.min(12)) + rng.below(6);
+                Some((0..len).map(|_| *rng.pick(pa)).collect())
+            } else {
+                None
+            };
+            let sels = l(rand_sels(&mut rng, n, 3));
+            let needles: Vec<Sx> = (0..3).map(|_| txt(&rand_needle(&mut rng, &t, alpha, 3))).collect();
+            let setup = setup_sx(interval, &anns, prev.as_deref());
+            all_kinds(out, &mut rng, &t, sels, needles, setup, "operations under index setups (random)");
+        }
+    }
     // regex: every pattern alone and every ordered pair on a few fixed texts, whole and sub-selection
     let rtexts = ["ab ab,aab", "a\u{e9}b \u{1f600}ba", "aaaa", ""];
     for t in rtexts.iter() {
@@ -620,6 +730,6 @@ pub fn generate(out: &mut Out, tier: &str, seed: u64) {
     }
 }
 
-pub const RULE: &str = "Exhaustive: every text of length <=4 (thorough 5) over {a, A, e-acute (2 bytes), U+1F600 (4 bytes)} x the resource and every sub-selection (unbound, bound, bound through ResultItem<TextSelection>) x every needle / delimiter of length <=2 over the same alphabet (empty included) for find_text, find_text_nocase and split_text, x 5 trim sets for trim_text and trim_text_with; targeted trim cases: trim sets of 2-, 3- and 4-byte characters (guillemets, NBSP, ellipsis, typographic quote, emoji) on texts with leading/trailing runs (0-2, thorough 0-3, single and mixed widths) around 5 cores incl. the empty one (text = only trimmed characters), on the resource and all / random sub-selections; segmentation of every range of a 4- and a 5-character mixed-width text under every set of <=2 known selections (zero-width and end-of-text ones included) with milestones. Seeded random: texts up to 10 (thorough 14) characters over an 18-character alphabet with 1-4 byte characters incl. characters whose lower-casing changes the UTF-8 length or the number of characters (U+0130, U+1E9E, U+212A, U+023A), needles drawn from the text (case flipped) or at random, random trim sets, fragment sequences with a skip set (exact and case-insensitive), 1-4 regular expressions from a family of 20 (literals, classes, alternation, empty matches, word boundary, lazy, 0-2 capture groups incl. optional ones) with and without allow_overlap on the resource or a sub-selection, the regex crate's own matches on a plain copy of the slice being the oracle; every pattern and (half of / thorough: all) ordered pattern pairs, and a fifth of the triples with a never-matching middle expression (RegexSet pre-selection, with and without a precompiled set), on 4 fixed texts (whole and two sub-selections); store-wide find_text over 1-3 resources. One evaluation = one operation call with its complete result list (begin, end and text of every returned selection). Non-trivial = the result has more than one selection (find/split/segmentation/sequence), something was trimmed, or a regex result exists. distinct = distinct model inputs.";
+pub const RULE: &str = "Exhaustive: every text of length <=4 (thorough 5) over {a, A, e-acute (2 bytes), U+1F600 (4 bytes)} x the resource and every sub-selection (unbound, bound, bound through ResultItem<TextSelection>) x every needle / delimiter of length <=2 over the same alphabet (empty included) for find_text, find_text_nocase and split_text, x 5 trim sets for trim_text and trim_text_with; targeted trim cases: trim sets of 2-, 3- and 4-byte characters (guillemets, NBSP, ellipsis, typographic quote, emoji) on texts with leading/trailing runs (0-2, thorough 0-3, single and mixed widths) around 5 cores incl. the empty one (text = only trimmed characters), on the resource and all / random sub-selections; segmentation of every range of a 4- and a 5-character mixed-width text under every set of <=2 known selections (zero-width and end-of-text ones included) with milestones. Seeded random: texts up to 10 (thorough 14) characters over an 18-character alphabet with 1-4 byte characters incl. characters whose lower-casing changes the UTF-8 length or the number of characters (U+0130, U+1E9E, U+212A, U+023A), needles drawn from the text (case flipped) or at random, random trim sets, fragment sequences with a skip set (exact and case-insensitive), 1-4 regular expressions from a family of 20 (literals, classes, alternation, empty matches, word boundary, lazy, 0-2 capture groups incl. optional ones) with and without allow_overlap on the resource or a sub-selection, the regex crate's own matches on a plain copy of the slice being the oracle; every pattern and (half of / thorough: all) ordered pattern pairs, and a fifth of the triples with a never-matching middle expression (RegexSet pre-selection, with and without a precompiled set), on 4 fixed texts (whole and two sub-selections); store-wide find_text over 1-3 resources. Index setups: find_text, find_text_nocase, split_text, trim_text, find_text_regex and find_text_sequence on resources built under milestone_interval 0 (no milestones), 1, 2, 3, 5, 100, carrying 0-3 annotations mostly in front of the matches, and / or that held another text first (TextResource::from_string(prev).with_string(text), prev at least one interval long, other byte layout): 4 fixed mixed-width texts x 6 intervals x 5 annotation sets x 4 previous texts, plus 700 (thorough 12000) random rounds; the answers must be those of the plain text alone. One evaluation = one operation call with its complete result list (begin, end and text of every returned selection). Non-trivial = the result has more than one selection (find/split/segmentation/sequence), something was trimmed, or a regex result exists. distinct = distinct model inputs.";
 
 pub const EXHAUSTIVE: bool = true;
